@@ -185,6 +185,9 @@ type Gate struct {
 	// LoopOnly (with ForEach): only require that the next iteration of the loop is reachable through a pass edge (or a
 	// Skip edge); no effect is examined. Used for "the loop stops at the first failure".
 	LoopOnly bool
+	// AllowEarlyExit (with ForEach): the loop may be left before the range is exhausted on a path that still reaches
+	// the effect (listed per instance with the reason)
+	AllowEarlyExit bool
 	// Start: analyse reachability from the block of the first instruction matching this callee rather than entry
 	Note string
 }
@@ -798,8 +801,62 @@ func (p *Prog) RunGate(g *Gate) GateResult {
 				}
 			}
 		}
+		if g.AllowEarlyExit {
+			continue
+		}
+		// "for each element" means every element: (a) the only way from the loop to the effect is the exhaustion of the
+		// range (the header's own exit) — a break/goto out of the body that can still reach the effect leaves the
+		// remaining elements unchecked; (b) the loop ranges over the whole collection, not over a sub-slice of it.
+		hb = map[*ssa.BasicBlock]bool{l.Header: true}
+		for b := range l.Body {
+			if b == l.Header {
+				continue
+			}
+			for _, s := range b.Succs {
+				if l.Body[s] {
+					continue
+				}
+				r := Reach(s, EdgeSet{}, hb)
+				for _, e := range effects {
+					if effectHitFrom(s, r, e, EdgeSet{}, hb) {
+						res.Violations = append(res.Violations, fmt.Sprintf("loop at %s: early exit at %s leaves the loop before all elements passed [%s] and still reaches %s at %s", p.Pos(blockPos(l.Header)), p.Pos(blockPos(b)), g.Check.Desc, e.What, p.Pos(e.Pos)))
+					}
+				}
+			}
+		}
+		if sl := rangedSubSlice(l); sl != nil {
+			res.Violations = append(res.Violations, fmt.Sprintf("loop at %s ranges over a sub-slice (%s), not over the whole collection: elements outside it never pass [%s]", p.Pos(blockPos(l.Header)), AccessPath(sl, 0), g.Check.Desc))
+		}
 	}
 	return res
+}
+
+// rangedSubSlice: if the loop is an index loop bounded by len(X[lo:hi]) with an explicit lo or hi, returns that slice value.
+func rangedSubSlice(l *Loop) ssa.Value {
+	i := ifOf(l.Header)
+	if i == nil {
+		return nil
+	}
+	bin, ok := i.Cond.(*ssa.BinOp)
+	if !ok {
+		return nil
+	}
+	for _, side := range []ssa.Value{bin.X, bin.Y} {
+		c, ok := side.(*ssa.Call)
+		if !ok {
+			continue
+		}
+		if b, ok := c.Call.Value.(*ssa.Builtin); !ok || b.Name() != "len" || len(c.Call.Args) != 1 {
+			continue
+		}
+		if sl, ok := c.Call.Args[0].(*ssa.Slice); ok && (sl.Low != nil || sl.High != nil) {
+			if _, isArr := sl.X.Type().Underlying().(*types.Pointer); isArr {
+				continue // slicing a fresh array (varargs literal), not a sub-range of a collection
+			}
+			return sl
+		}
+	}
+	return nil
 }
 
 // Gate runs the gate and records the obligation.
